@@ -114,7 +114,8 @@ def plan_c09(ctx):
 
 
 COMPACT_MCS = [dict(module='MC_Compact', cfg='MC_Compact_subsets'), dict(module='MC_Compact', cfg='MC_Compact_antichains'),
-               dict(module='MC_Compact', cfg='MC_Compact_faces'), dict(module='MC_Compact', cfg='MC_Compact_lowres')]
+               dict(module='MC_Compact', cfg='MC_Compact_faces'), dict(module='MC_Compact', cfg='MC_Compact_lowres'),
+               dict(module='MC_Compact', cfg='MC_Compact_deep')]
 
 
 def plan_c08(ctx):
